@@ -55,6 +55,18 @@ def aeadDec (alg : Int) (key nonce ct aad : Bytes) : Res Bytes :=
   else if alg = 24 then chachaDecrypt key nonce ct aad
   else .err "alg"
 
+/-- an Encryptor made for `alg` whose key's alg member became `alg2`: AES-CCM reads tag and nonce size from the key at every
+    call (a value that is no CCM algorithm leaves no admissible size), the cipher block stays the one made at construction;
+    AES-GCM and ChaCha20/Poly1305 do not look at the algorithm again -/
+def aeadAlgAfter (alg : Int) (key : Bytes) (alg2 : Int) (nonce pt aad : Bytes) : Res Bytes :=
+  if isGcm alg then (if key.length ≠ gcmKeySize alg then .err "keysize" else gcmEncrypt key nonce pt aad)
+  else if isCcm alg then
+    (if key.length ≠ ccmKeySize alg then .err "keysize"
+     else if ccmTagSize alg2 = 0 then .err "alg"
+     else ccmEncrypt alg2 key nonce pt aad)
+  else if alg = 24 then chachaEncrypt key nonce pt aad
+  else .err "alg"
+
 def parseNats (s : String) : Option (List Nat) :=
   (s.splitOn ",").mapM (fun t => t.toNat?)
 
@@ -71,6 +83,8 @@ def dispatch (op : String) (args : List String) : Option String :=
       | some a, some k, some d => res (macCreate a k d) | _, _, _ => "bad-op")
   | "prim.aead2", [alg, key, _n1, _p1, _a1, n2, p2, a2] => some (match alg.toInt?, unhex key, unhex n2, unhex p2, unhex a2 with
       | some a, some k, some n, some p, some ad => res (aeadEnc a k n p ad) | _, _, _, _, _ => "bad-op")
+  | "prim.aeadalg", [alg, key, alg2, nonce, pt, aad] => some (match alg.toInt?, unhex key, alg2.toInt?, unhex nonce, unhex pt, unhex aad with
+      | some a, some k, some a2, some n, some p, some ad => res (aeadAlgAfter a k a2 n p ad) | _, _, _, _, _, _ => "bad-op")
   | "prim.aead.enc", [alg, key, nonce, pt, aad] => some (match alg.toInt?, unhex key, unhex nonce, unhex pt, unhex aad with
       | some a, some k, some n, some p, some ad => res (aeadEnc a k n p ad) | _, _, _, _, _ => "bad-op")
   | "prim.aead.dec", [alg, key, nonce, ct, aad] => some (match alg.toInt?, unhex key, unhex nonce, unhex ct, unhex aad with
